@@ -25,6 +25,7 @@ tname = "seed_demo_" + seed.replace("-", "_").lower()
 tpath = os.path.join(wt, crate, "tests", tname + ".rs")
 log = {}
 sh("git checkout -- . && git clean -fdq -- '*/tests/seed_demo_*'")
+sh("git checkout -q --detach $(git -C /repo rev-parse HEAD)")   # validate against the current /repo HEAD
 shutil.copy(os.path.join(sd, "demo.rs"), tpath)
 rc, out = sh(f"cargo test --offline -p {crate} --test {tname} 2>&1 | tail -15")
 log["demo_on_unchanged"] = out[-600:]
